@@ -13,6 +13,7 @@ behaviour ...) whose pages carry `decls` instead of ready-made `hooks`, plus an 
             'conf': [[LEVEL, KEY, V]] config entries `<box>.d<id>.<KEY>`; LEVEL g = cherrypy.config, r = Root._cp_config,
                                       a = app config '/', h = the page handler's _cp_config, p = the path section
             'deco': {KEY: V}          the page handler is decorated with `tool(**deco)` (switches the tool on)
+            'ret': 1                  the HandlerTool's callable returns True (it handled the request: no page handler) [htool]
     CHANNEL = hobj   a Hook object in config `hooks.<point>.d<id>`
               hbare  the bare callable in config `hooks.<point>.d<id>`
               hstr   a dotted name in config `hooks.<point>.d<id>` (resolved by reprconf.attributes)
@@ -208,6 +209,7 @@ def _make_root(plan, inst):
 def install(plan, app, inst):
     """Put the declarations of the plan into the application (config at every level, toolboxes, root)."""
     root_cls = _make_root(plan, inst)
+    _apply_reqopt(plan, app, inst)
     root_conf = {}
     glob = {}
     app.toolboxes['vx'] = VX
@@ -243,7 +245,7 @@ def install(plan, app, inst):
             if ch == 'tool':
                 tool = _cptools.Tool(POINTS[pt], _set_attrs(_mk_probe(pt, hid, d['out']), d), **kw)
             elif ch == 'htool':
-                tool = _cptools.HandlerTool(_set_attrs(_mk_probe(2, hid, d['out'], ret=False), d))
+                tool = _cptools.HandlerTool(_set_attrs(_mk_probe(2, hid, d['out'], ret=bool(d.get('ret'))), d))
             elif ch == 'etool':
                 tool = _cptools.ErrorTool(_set_attrs(_mk_error_tool_callable(hid, d['out']), d))
             elif ch == 'ctool':
@@ -259,7 +261,9 @@ def install(plan, app, inst):
             if 'deco' in d:
                 handler = tool(**d['deco'])(handler)
             for level, key, v in d.get('conf', []):
-                full = '%s.%s.%s' % (d['box'], name, key)
+                # key '' = a malformed entry `<box>.<tool>` without an argument name: `populate` raises, the
+                # toolbox's __exit__ still sets up what it has, the request fails inside self.namespaces(...)
+                full = '%s.%s.%s' % (d['box'], name, key) if key else '%s.%s' % (d['box'], name)
                 if level == 'p':
                     sec[full] = v
                 elif level == 'a':
@@ -595,7 +599,38 @@ def declared(d, cfg):
 # running a plan
 # ----------------------------------------------------------------------------------------------
 def is_decl_plan(plan):
-    return bool(plan.get('cls')) or any(pg.get('decls') for pg in plan['pages'])
+    return bool(plan.get('cls')) or bool(plan.get('reqopt')) or any(pg.get('decls') for pg in plan['pages'])
+
+
+class _AfterRequestFailure(Exception):
+    pass
+
+
+def _failing_listener():
+    raise _AfterRequestFailure('VP after_request listener fails')
+
+
+REQOPTS = ['throw_errors', 'throws_ex', 'er_none', 'ar_fail']
+
+
+def _apply_reqopt(plan, app, inst):
+    """Request attributes / engine listeners that change how request processing *ends* (the pipeline model does
+    not know them; the statement's end-hook clauses are evaluated by the oracle on the real run):
+      throw_errors  request.throw_errors = True          (Request.run / respond re-raise instead of handling)
+      throws_ex     request.throws also names the probes' exception class
+      er_none       request.error_response = None        (handle_error skips the call)
+      ar_fail       a listener on the engine's 'after_request' channel raises (release_serving)"""
+    opt = plan.get('reqopt') or {}
+    root = app.config.setdefault('/', {})
+    if opt.get('throw_errors'):
+        root['request.throw_errors'] = True
+    if opt.get('throws_ex'):
+        root['request.throws'] = (KeyboardInterrupt, SystemExit, cherrypy.InternalRedirect, pc.ProbeError)
+    if opt.get('er_none'):
+        root['request.error_response'] = None
+    if opt.get('ar_fail'):
+        cherrypy.engine.subscribe('after_request', _failing_listener)
+        inst.undo.append(lambda: cherrypy.engine.unsubscribe('after_request', _failing_listener))
 
 
 def run_real(plan):
@@ -657,6 +692,10 @@ def model_attached(m):
 def pipeline_plan(plan, obs, models):
     """The fault plan for the pipeline model: per page the hooks the *attachment model* computed (natural
     number priority codes).  None when the pipeline model cannot express the run."""
+    if plan.get('reqopt'):
+        return None
+    if any(d.get('ret') for pg in plan['pages'] for d in pg.get('decls', [])):
+        return None       # a HandlerTool that handles the request itself: the page handler is skipped
     out = copy.deepcopy(plan)
     outs = {d['id']: d['out'] for pg in plan['pages'] for d in pg.get('decls', [])}
     outs.update({d['id']: d['out'] for d in plan.get('cls', [])})
@@ -821,6 +860,18 @@ def targeted_plans():
                 d['conf'].append(['p', 'a0', 7])
                 out.append(P([B(decls=[_ref(nid, 2, 10), d, _ref(nid, 6, 50), _ref(nid, 7, 50)],
                                 handler=['ex', 'bytes', None], errResp='ok' if ch == 'etool' and level == 'p' else None)]))
+    # a HandlerTool that handles the request; a malformed toolbox entry (populate raises inside the namespaces)
+    for out_ in ('ok', 'ex'):
+        nid = [0]
+        d = _subject(nid, 'htool', 2, out=out_)
+        d['ret'] = 1
+        out.append(P([B(decls=[_ref(nid, 2, 10), d, _ref(nid, 2, 60), _ref(nid, 4, 50, fs=True), _ref(nid, 5, 50, fs=True)])]))
+    for box in BOXES:
+        nid = [0]
+        d = _subject(nid, 'tool', 0, box=box)
+        d['conf'].append(['p', '', True])
+        out.append(P([B(decls=[_ref(nid, 0, 10), d, _subject(nid, 'tool', 4, box=box), _ref(nid, 4, 50, fs=True),
+                               _ref(nid, 5, 50, fs=True)])]))
     # session tool locking modes
     for lock in ('implicit', 'early', 'explicit', None, 'absent'):
         nid = [0]
@@ -835,6 +886,17 @@ def targeted_plans():
     for handler in (['ok', 'bytes', None], ['ir1', 'bytes', None], ['ex', 'bytes', None]):
         out.append(P([B(decls=[_ref(nid, 0, 0), _ref(nid, 4, 10), _subject(nid, 'tool', 0)], handler=handler),
                       B(decls=[_ref(nid, 0, -1), _subject(nid, 'stool', 5)], handler=['ir0', 'bytes', None])], cls=cls))
+    # request attributes / listeners that change how processing ends (oracle only)
+    end = [[4, 90, 50, 1, 'ok'], [5, 91, 50, 1, 'ok'], [4, 92, 50, 0, 'ok'], [5, 93, 50, 0, 'ok']]
+    for opts in [[o] for o in REQOPTS] + [['throw_errors', 'ar_fail'], ['throws_ex', 'er_none'], ['er_none', 'ar_fail']]:
+        for handler in (['ok', 'bytes', None], ['ex', 'bytes', None], ['he404', 'bytes', None], ['hr303', 'bytes', None],
+                        ['ir1', 'bytes', None], ['ok', 'gen1', None]):
+            for bad in (None, [4, 1, 10, 0, 'ex'], [5, 1, 10, 0, 'ex'], [6, 1, 10, 0, 'ex'], [3, 1, 10, 0, 'he500'],
+                        [4, 1, 10, 0, 'ir1']):
+                for stream in (0, 1):
+                    out.append(P([B(hooks=end + ([bad] if bad else []), handler=handler, stream=stream),
+                                  B(hooks=[[4, 94, 50, 1, 'ok'], [5, 95, 50, 1, 'ok']])],
+                                 reqopt={o: 1 for o in opts}, closes=2 if stream else 1))
     return out
 
 
@@ -863,6 +925,10 @@ def gen_decl(rng, nid, pt, npages, focus_fs=False):
             d['conf'][0][0] = rng.choice('ahrg')
         if rng.random() < 0.3:
             d['conf'].append([rng.choice('pa'), rng.choice(KW_NAMES), rng.choice([1, 'x', None, False])])
+        if ch == 'htool' and rng.random() < 0.15:
+            d['ret'] = 1
+        if rng.random() < 0.02:
+            d['conf'].append(['p', '', True])
         if ch == 'stool' and rng.random() < 0.6:
             d['conf'].append(['p', 'locking', rng.choice(['implicit', 'early', 'explicit', None])])
         rng.shuffle(d['conf'])
@@ -889,6 +955,8 @@ def gen_plan(rng):
             decls.append(_ref(nid, pt, rng.choice([-5, 0, -BIG]), out=rng.choice(['ex', 'he404', 'ex'])))
         rng.shuffle(decls)
         pg['decls'] = decls
+    if rng.random() < 0.12:
+        base['reqopt'] = {o: 1 for o in rng.sample(REQOPTS, rng.choice([1, 1, 2]))}
     if rng.random() < 0.25:
         base['cls'] = []
         for _ in range(rng.choice([1, 2])):
